@@ -32,6 +32,10 @@ class RegexStackOverflow(Exception):
     pass
 
 
+class _StepLimitExceeded(Exception):
+    """Internal: the per-attempt step budget ran out (the attempt fails)."""
+
+
 class MatchResult:
     """Result of a successful regex match."""
 
@@ -139,19 +143,43 @@ class RegexVM:
         self, string: str, start_pos: int, anchored: bool
     ) -> Optional[MatchResult]:
         """
-        Execute bytecode against string.
-
-        This is the main execution loop.
+        Execute bytecode against string, starting at start_pos.
         """
-        # Execution state
-        pc = 0  # Program counter
-        sp = start_pos  # String position
-        step_count = 0
-
-        # Capture positions: list of (start, end) for each group
-        # -1 means unset
+        # One step budget per match attempt, shared with lookaround bodies
+        self._step_count = 0
         captures = [[-1, -1] for _ in range(self.capture_count)]
+        try:
+            result = self._run(string, 0, start_pos, captures)
+        except _StepLimitExceeded:
+            return None  # Fail gracefully on ReDoS
+        if result is None:
+            return None
+        _, captures = result
+        groups = []
+        for start, end in captures:
+            if start == -1 or end == -1:
+                groups.append(None)
+            else:
+                groups.append(string[start:end])
+        return MatchResult(groups, captures[0][0], string)
 
+    def _run(
+        self,
+        string: str,
+        pc: int,
+        sp: int,
+        captures: List[List[int]],
+        end_pos: Optional[int] = None,
+    ) -> Optional[Tuple[int, List[List[int]]]]:
+        """
+        Run the bytecode from pc at string position sp.
+
+        This is the one interpreter loop: the whole pattern and the bodies of
+        lookahead/lookbehind assertions all run here, so every instruction means
+        the same thing wherever it appears. Returns (position, captures) when a
+        MATCH / LOOKAHEAD_END / LOOKBEHIND_END is reached, None when every
+        alternative failed. A lookbehind body must end exactly at end_pos.
+        """
         # Registers for position tracking (ReDoS protection)
         registers: List[int] = []
 
@@ -162,14 +190,14 @@ class RegexVM:
             if _VERIF_ENABLED and _VERIF_HOOK is not None:
                 _VERIF_HOOK(self, "main")
             # Check limits periodically
-            step_count += 1
-            if step_count % self.poll_interval == 0:
+            self._step_count += 1
+            if self._step_count % self.poll_interval == 0:
                 if self.poll_callback and self.poll_callback():
                     raise RegexTimeoutError("Regex execution timed out")
 
             # Hard step limit for ReDoS protection
-            if step_count > self.step_limit:
-                return None  # Fail gracefully on ReDoS
+            if self._step_count > self.step_limit:
+                raise _StepLimitExceeded()
 
             # Stack overflow protection
             if len(stack) > self.stack_limit:
@@ -495,10 +523,8 @@ class RegexVM:
                 saved_sp = sp
                 saved_captures = [c.copy() for c in captures]
 
-                # Create sub-execution for lookahead, passing current captures
-                la_captures = self._execute_lookahead(
-                    string, sp, pc + 1, end_offset, captures
-                )
+                # Run the body in the same interpreter, on a copy of the captures
+                la_captures = self._execute_lookahead(string, sp, pc + 1, captures)
 
                 if la_captures is not None:
                     # Lookahead succeeded - restore position but keep captures from lookahead
@@ -516,9 +542,7 @@ class RegexVM:
                 saved_sp = sp
                 saved_captures = [c.copy() for c in captures]
 
-                la_captures = self._execute_lookahead(
-                    string, sp, pc + 1, end_offset, captures
-                )
+                la_captures = self._execute_lookahead(string, sp, pc + 1, captures)
 
                 if la_captures is None:
                     # Negative lookahead succeeded (inner didn't match)
@@ -533,20 +557,17 @@ class RegexVM:
 
             elif opcode == Op.LOOKAHEAD_END:
                 # Successfully matched lookahead content
-                return MatchResult([], 0, "")  # Special marker
+                return sp, captures
 
             elif opcode == Op.LOOKBEHIND:
                 end_offset = instr[1]
-                saved_sp = sp
-                saved_captures = [c.copy() for c in captures]
 
                 # Try lookbehind - match pattern ending at current position
-                lb_result = self._execute_lookbehind(string, sp, pc + 1, end_offset)
+                lb_captures = self._execute_lookbehind(string, sp, pc + 1, captures)
 
-                if lb_result:
-                    # Lookbehind succeeded - restore position and continue after
-                    sp = saved_sp
-                    captures = saved_captures
+                if lb_captures is not None:
+                    # Lookbehind succeeded - position unchanged, captures kept
+                    captures = lb_captures
                     pc = end_offset
                 else:
                     # Lookbehind failed
@@ -556,15 +577,11 @@ class RegexVM:
 
             elif opcode == Op.LOOKBEHIND_NEG:
                 end_offset = instr[1]
-                saved_sp = sp
-                saved_captures = [c.copy() for c in captures]
 
-                lb_result = self._execute_lookbehind(string, sp, pc + 1, end_offset)
+                lb_captures = self._execute_lookbehind(string, sp, pc + 1, captures)
 
-                if not lb_result:
+                if lb_captures is None:
                     # Negative lookbehind succeeded (inner didn't match)
-                    sp = saved_sp
-                    captures = saved_captures
                     pc = end_offset
                 else:
                     # Negative lookbehind failed (inner matched)
@@ -573,7 +590,14 @@ class RegexVM:
                     pc, sp, captures, registers = self._backtrack(stack)
 
             elif opcode == Op.LOOKBEHIND_END:
-                return MatchResult([], 0, "")  # Special marker
+                if end_pos is not None and sp != end_pos:
+                    # The body matched but does not end where the assertion
+                    # stands: try the remaining alternatives
+                    if not stack:
+                        return None
+                    pc, sp, captures, registers = self._backtrack(stack)
+                    continue
+                return sp, captures
 
             elif opcode == Op.SET_POS:
                 reg_idx = instr[1]
@@ -607,13 +631,7 @@ class RegexVM:
 
             elif opcode == Op.MATCH:
                 # Successful match!
-                groups = []
-                for start, end in captures:
-                    if start == -1 or end == -1:
-                        groups.append(None)
-                    else:
-                        groups.append(string[start:end])
-                return MatchResult(groups, captures[0][0], string)
+                return sp, captures
 
             else:
                 raise RuntimeError(f"Unknown opcode: {opcode}")
@@ -637,232 +655,38 @@ class RegexVM:
         string: str,
         start_pos: int,
         start_pc: int,
-        end_pc: int,
         input_captures: List[List[int]],
     ) -> Optional[List[List[int]]]:
-        """Execute bytecode for lookahead assertion.
+        """Run a lookahead body at start_pos.
 
-        Returns the captures list if lookahead succeeds, None if it fails.
-        This preserves captures made inside the lookahead.
+        Returns the captures list if the body matches (captures made inside the
+        lookahead are preserved), None if it does not.
         """
-        # Start with a copy of input captures to preserve outer captures
-        pc = start_pc
-        sp = start_pos
-        captures = [c.copy() for c in input_captures]
-        registers: List[int] = []
-        stack: List[Tuple] = []
-        step_count = 0
-
-        while True:
-            if _VERIF_ENABLED and _VERIF_HOOK is not None:
-                _VERIF_HOOK(self, "lookahead")
-            step_count += 1
-            if step_count % self.poll_interval == 0:
-                if self.poll_callback and self.poll_callback():
-                    raise RegexTimeoutError("Regex execution timed out")
-
-            if len(stack) > self.stack_limit:
-                raise RegexStackOverflow("Regex stack overflow")
-
-            if pc >= end_pc:
-                return None
-
-            instr = self.bytecode[pc]
-            opcode = instr[0]
-
-            if opcode == Op.LOOKAHEAD_END:
-                return captures  # Return captures made inside lookahead
-
-            # Handle SAVE_START/SAVE_END to capture groups inside lookahead
-            if opcode == Op.SAVE_START:
-                group_idx = instr[1]
-                if group_idx < len(captures):
-                    captures[group_idx][0] = sp
-                pc += 1
-
-            elif opcode == Op.SAVE_END:
-                group_idx = instr[1]
-                if group_idx < len(captures):
-                    captures[group_idx][1] = sp
-                pc += 1
-
-            elif opcode == Op.CHAR:
-                char_code = instr[1]
-                if sp >= len(string):
-                    if not stack:
-                        return None
-                    pc, sp, captures, registers = stack.pop()
-                    continue
-                ch = string[sp]
-                if self.ignorecase:
-                    match = ord(ch.lower()) == char_code or ord(ch.upper()) == char_code
-                else:
-                    match = ord(ch) == char_code
-                if match:
-                    sp += 1
-                    pc += 1
-                else:
-                    if not stack:
-                        return None
-                    pc, sp, captures, registers = stack.pop()
-
-            elif opcode == Op.DOT:
-                if sp >= len(string) or string[sp] == "\n":
-                    if not stack:
-                        return None
-                    pc, sp, captures, registers = stack.pop()
-                    continue
-                sp += 1
-                pc += 1
-
-            elif opcode == Op.SPLIT_FIRST:
-                alt_pc = instr[1]
-                stack.append(
-                    (alt_pc, sp, [c.copy() for c in captures], registers.copy())
-                )
-                pc += 1
-
-            elif opcode == Op.SPLIT_NEXT:
-                alt_pc = instr[1]
-                stack.append(
-                    (pc + 1, sp, [c.copy() for c in captures], registers.copy())
-                )
-                pc = alt_pc
-
-            elif opcode == Op.JUMP:
-                pc = instr[1]
-
-            elif opcode == Op.MATCH:
-                return captures
-
-            else:
-                # Handle other opcodes similarly to main loop
-                pc += 1
+        result = self._run(
+            string, start_pc, start_pos, [c.copy() for c in input_captures]
+        )
+        return None if result is None else result[1]
 
     def _execute_lookbehind(
-        self, string: str, end_pos: int, start_pc: int, end_pc: int
-    ) -> bool:
-        """Execute bytecode for lookbehind assertion.
+        self,
+        string: str,
+        end_pos: int,
+        start_pc: int,
+        input_captures: List[List[int]],
+    ) -> Optional[List[List[int]]]:
+        """Run a lookbehind body so that it ends exactly at end_pos.
 
-        Lookbehind matches if the pattern matches text ending at end_pos.
-        We try all possible start positions backwards from end_pos.
+        Every start position is tried, nearest first. Returns the captures of
+        the successful attempt, None if there is none.
         """
-        # Try all possible starting positions from 0 to end_pos
-        # We want the pattern to match and end exactly at end_pos
         for start_pos in range(end_pos, -1, -1):
-            result = self._try_lookbehind_at(
-                string, start_pos, end_pos, start_pc, end_pc
+            result = self._run(
+                string,
+                start_pc,
+                start_pos,
+                [c.copy() for c in input_captures],
+                end_pos,
             )
-            if result:
-                return True
-        return False
-
-    def _try_lookbehind_at(
-        self, string: str, start_pos: int, end_pos: int, start_pc: int, end_pc: int
-    ) -> bool:
-        """Try to match lookbehind pattern from start_pos, checking it ends at end_pos."""
-        pc = start_pc
-        sp = start_pos
-        captures = [[-1, -1] for _ in range(self.capture_count)]
-        registers: List[int] = []
-        stack: List[Tuple] = []
-        step_count = 0
-
-        while True:
-            if _VERIF_ENABLED and _VERIF_HOOK is not None:
-                _VERIF_HOOK(self, "lookbehind")
-            step_count += 1
-            if step_count % self.poll_interval == 0:
-                if self.poll_callback and self.poll_callback():
-                    raise RegexTimeoutError("Regex execution timed out")
-
-            if len(stack) > self.stack_limit:
-                raise RegexStackOverflow("Regex stack overflow")
-
-            if pc >= end_pc:
-                return False
-
-            instr = self.bytecode[pc]
-            opcode = instr[0]
-
-            if opcode == Op.LOOKBEHIND_END:
-                # Check if we ended exactly at the target position
-                return sp == end_pos
-
-            if opcode == Op.CHAR:
-                char_code = instr[1]
-                if sp >= len(string):
-                    if not stack:
-                        return False
-                    pc, sp, captures, registers = stack.pop()
-                    continue
-                ch = string[sp]
-                if self.ignorecase:
-                    match = ord(ch.lower()) == char_code or ord(ch.upper()) == char_code
-                else:
-                    match = ord(ch) == char_code
-                if match:
-                    sp += 1
-                    pc += 1
-                else:
-                    if not stack:
-                        return False
-                    pc, sp, captures, registers = stack.pop()
-
-            elif opcode == Op.DOT:
-                if sp >= len(string) or string[sp] == "\n":
-                    if not stack:
-                        return False
-                    pc, sp, captures, registers = stack.pop()
-                    continue
-                sp += 1
-                pc += 1
-
-            elif opcode == Op.DIGIT:
-                if sp >= len(string) or not string[sp].isdigit():
-                    if not stack:
-                        return False
-                    pc, sp, captures, registers = stack.pop()
-                    continue
-                sp += 1
-                pc += 1
-
-            elif opcode == Op.WORD:
-                if sp >= len(string):
-                    if not stack:
-                        return False
-                    pc, sp, captures, registers = stack.pop()
-                    continue
-                ch = string[sp]
-                if ch.isalnum() or ch == "_":
-                    sp += 1
-                    pc += 1
-                else:
-                    if not stack:
-                        return False
-                    pc, sp, captures, registers = stack.pop()
-
-            elif opcode == Op.SPLIT_FIRST:
-                alt_pc = instr[1]
-                stack.append(
-                    (alt_pc, sp, [c.copy() for c in captures], registers.copy())
-                )
-                pc += 1
-
-            elif opcode == Op.SPLIT_NEXT:
-                alt_pc = instr[1]
-                stack.append(
-                    (pc + 1, sp, [c.copy() for c in captures], registers.copy())
-                )
-                pc = alt_pc
-
-            elif opcode == Op.JUMP:
-                pc = instr[1]
-
-            elif opcode == Op.MATCH:
-                # Check if we ended exactly at the target position
-                return sp == end_pos
-
-            else:
-                # Handle other opcodes - advance pc
-                pc += 1
+            if result is not None:
+                return result[1]
+        return None
